@@ -78,3 +78,14 @@ Proof. vm_compute. reflexivity. Qed.
 Example C09_sample_crash :
   let s := crash None sample_ops 10 (Some 0%nat) in cmod s = true /\ cdone s = false /\ valid_journal (jbytes s) = true.
 Proof. vm_compute. repeat split; reflexivity. Qed.
+
+(* the journal header as the model reads it (magic at 0..7, the sector size as a SIGNED 32 bit big-endian integer at
+   20..23, within the 28 bytes read) is the struct validJournal decodes: Gen/Layout.v is translated from
+   db/journal.go on every build *)
+From SQ Require Import Gen.Layout Proofs.LayoutP.
+Theorem C09_source_journal_layout :
+  (go_journal_struct_size <= 28)%Z /\
+  map fst go_journal_fields = map fst model_journal_reads /\
+  forall name x, In (name, x) model_journal_reads -> go_field go_journal_fields name = Some x.
+Proof. exact journal_layout. Qed.
+Print Assumptions C09_source_journal_layout.
